@@ -20,7 +20,7 @@ func init() {
 		}
 		sqlMethods := map[string]bool{"ExecContext": true, "QueryRowContext": true, "QueryContext": true, "Exec": true, "Query": true, "QueryRow": true, "PrepareContext": true, "Prepare": true}
 		fsFuncs := map[string]bool{"Open": true, "OpenFile": true, "Create": true, "WriteFile": true, "Truncate": true, "Remove": true, "RemoveAll": true, "Rename": true, "Chtimes": true, "Chmod": true}
-		var inv, commits, opens []string
+		var inv, commits, opens, recvKinds []string
 		files := []string{"db.go", "litestream.go", "store.go", "compactor.go", "server.go", "heartbeat.go", "log.go", "wal_reader.go"}
 		for _, fn := range files {
 			f, ok := p.files[fn]
@@ -87,7 +87,11 @@ func init() {
 								if s == "<ctx>" {
 									continue
 								}
-								inv = append(inv, fd.Name.Name+"\x00"+strings.Join(strings.Fields(s), " "))
+								kind := "db"
+								if strings.HasSuffix(strings.ToLower(recv), "tx") {
+									kind = "tx"
+								}
+								inv = append(inv, fd.Name.Name+"\x00"+strings.Join(strings.Fields(s), " ")+"\x00"+kind)
 								break
 							}
 						}
@@ -111,13 +115,15 @@ func init() {
 		var sb strings.Builder
 		sb.WriteString("namespace Litestream.Gen.Sql\n\n/-- (function, statement) for every SQL statement issued against the source database -/\ndef inventory : List (String × String) := [\n")
 		for i, s := range inv {
-			parts := strings.SplitN(s, "\x00", 2)
+			parts := strings.SplitN(s, "\x00", 3)
 			sep := ","
 			if i == len(inv)-1 {
 				sep = ""
 			}
 			fmt.Fprintf(&sb, "  (%s, %s)%s\n", strconv.Quote(parts[0]), strconv.Quote(parts[1]), sep)
+			recvKinds = append(recvKinds, fmt.Sprintf("(%s, %s, %s)", strconv.Quote(parts[0]), strconv.Quote(parts[1]), strconv.Quote(parts[2])))
 		}
+		sb.WriteString("]\n\n/-- (function, statement, receiver kind): \"tx\" = issued on a *sql.Tx, \"db\" = on the pool (autocommit) -/\ndef receivers : List (String × String × String) := [\n  " + strings.Join(recvKinds, ",\n  ") + "\n")
 		sb.WriteString("]\n\n/-- every `.Commit()` call in the files that touch the source database -/\ndef commitCalls : List String := [")
 		for i, s := range commits {
 			if i > 0 {
